@@ -35,7 +35,7 @@ def run(c):
     binary = c.go_build(HARNESS)
     if binary:
         gen(c, binary)
-    c.prove("SH.Props.C01", extra_files=["SH/Model/Delivery.lean", "SH/Gen/C01.lean"])
+    c.prove("SH.Props.C01", extra_files=["SH/Model/Delivery.lean", "SH/Lemmas/Delivery.lean", "SH/Gen/C01.lean"])
     drv = c.driver(DRIVER)
     if binary and drv:
         rc, out = c.go_run(binary, [f"-n={c.n(240, 2400)}"], timeout=1500)
@@ -64,7 +64,14 @@ META = {
     "technique": "Lean 4 theorems over an executable message-level model of one agent shard, three aggregator replicas, the wire and the "
                  "storage log (SH.Model.Delivery) + op-by-op differential correspondence with the REAL send path, handler and inserter under "
                  "scripted faults + direct no-loss oracle on the real code + regenerated decision-site facts",
-    "text": ("Kernel-checked for all inputs of the modelled functions: (1) ack_after_insert_or_reject — the handler answers discard at once only "
+    "text": ("SYSTEM LEVEL, for ALL operation sequences (induction over the op list of the composed model: sends, deliveries, insert "
+             "failures, lost answers/timeouts, aggregator down/up, agent graceful stop and crash, replica failover, clock jumps, memory "
+             "and disk limits): no_silent_loss — every second handed to the send path is held by the agent (queue, blocked sender, live "
+             "disk record), or in the body of a successful INSERT, or deliberately rejected/dropped; ack_after_insert_or_reject — at every "
+             "point of every run every discard answer on the wire carries a second already inserted or deliberately rejected; "
+             "erase_after_ack — whatever the operation, a flushed second that stops being held is inserted, rejected or in a deliberate-drop "
+             "set; answer_matches_sender — request ids never name two seconds. The invariant (lean/SH/Lemmas/Delivery.lean, SInv) is "
+             "shown to be preserved by each of the 14 model operations. COMPONENT LEVEL, kernel-checked for all inputs of the modelled functions: (1) ack_after_insert_or_reject — the handler answers discard at once only "
              "for a second beyond the newest recent bucket or before oldest-historicWindow, a late recent second is answered WITHOUT discard, a "
              "second inside the window is always parked, and the bucket it is parked in is one this replica's ticker hands to an inserter "
              "(aggDecide_*, roundUp_mod); every answer goInsert sends with discard belongs to a bucket whose rows are in the body of an INSERT "
@@ -85,9 +92,11 @@ META = {
              "runnable whenever the head of the historic queue can be popped, for every interleaving of clock, appends and consumers "
              "(wake_invariant, wake_sites_now); dropping the flush signal breaks it (decide witness); the real goroutines are run in real "
              "time on a second saved in the future before a restart (historic-sender-never-woken)."),
-    "note": ("PARTIAL: the system-wide invariant no_silent_loss over arbitrary op lists and the schedule-existence liveness can_always_finish "
-             "are stated (comment in SH/Props/C01.lean) but proved only per component (handler, inserter, sender step); end to end they are "
-             "checked by the oracle and by kernel-evaluated scenarios, not by induction. Trusted/modelled: the rpc library (replaced by an "
+    "note": ("PARTIAL: the liveness half is not proved: can_always_finish (from every reachable state a fault-free schedule inserts a held "
+             "in-window second) is stated as a comment only; it is exercised on the real code by the fault-free finishing phase of every case "
+             "(sig not-delivered-after-recovery), by the wake-up tier, and by the wake-up invariant theorem. The safety half (no_silent_loss, "
+             "ack_after_insert_or_reject, erase_after_ack) IS proved for all op lists of the model; the model's `lostMem` (seconds that "
+             "existed only in memory when the agent process died) counts as a deliberate-loss set. Trusted/modelled: the rpc library (replaced by an "
              "in-process rpc.Client / HandlerContextConnection pair), Go scheduling (senders resumed one at a time), the agent's real wall "
              "clock (cases generated so that no clock-dependent decision can flip within 80 s), goTicker's dispatch loop (re-stated in the "
              "harness accessor Advance/Insert; its conveyor-full branch is exercised in real time by -mode=conveyor and pinned by a generated "
